@@ -413,10 +413,10 @@ def events(fn, summ):
                 continue
             pl, rv = st[1], st[2]
             if len(pl) == 1 and pl[0] in results:
-                # a *selector*: which constant the function answers under which condition (`Format::word_size`, `is_cie`,
-                # `allow_section_offset`, `is_valid_encoding`): the set of returned constants alone does not say which arm gives which
+                # which value the function answers under which condition (`Format::word_size`, `is_cie`: `id == 0xffff_ffff` for
+                # Dwarf32, `allow_section_offset`, `is_valid_encoding`): the set of returned values alone does not say which arm gives which
                 ls = _rv_leaves(fn, rv)
-                if ls and all(_CONST_LEAF.match(x) for x in ls):
+                if ls and not all(x.startswith(('var:', 'tmp:')) for x in ls):
                     out.append((b, 'r:' + _fmt(ls)))
             if len(pl) > 1:
                 base, names = summ.root_of(fn, pl)
@@ -649,7 +649,7 @@ def order_fingerprint(fn, summ):
                     if base == 1 and names:
                         wr.add('self.' + names[0])
                 if rd or wr:
-                    evs[b].append((len(stmts), 'c:%s(%s)' % (name, _fmt(ls[0]) if ls else ''), rd, wr))
+                    evs[b].append((len(stmts), 'c:%s(%s)' % (name, ' ; '.join(_fmt(l_) for l_ in ls)), rd, wr))
     if not evs:
         return []
     dom = fn.dom
